@@ -3,8 +3,10 @@ package props
 import (
 	"bytes"
 	"encoding/json"
+	"errors"
 	"fmt"
 	"io"
+	"sync"
 	"testing"
 
 	snes "github.com/alttpo/snes"
@@ -16,7 +18,7 @@ import (
 // C10 — ROM bus readers/writers stay inside the addressed bank and obey io contracts.
 
 type c10Op struct {
-	Kind string `json:"kind"` // "write", "copy" (write via io.Copy from a plain reader), "grow" (Contents re-allocated), "reopen", "read"
+	Kind string `json:"kind"` // "write", "copy" (write via io.Copy from a plain reader), "alias" (the written slice is an overlapping part of the image itself), "grow" (Contents re-allocated), "reopen", "read"
 	N    int    `json:"n"`    // write length / read buffer size
 	Seed uint32 `json:"seed"` // write data = Mix(seed, i)
 }
@@ -29,13 +31,43 @@ type c10Case struct {
 	Ops   []c10Op `json:"ops"`
 }
 
+var (
+	c10Images = map[int][]byte{}
+	c10ImgMu  sync.Mutex
+)
+
+// c10Pristine returns the (cached, never modified) initial image of the given size.
+func c10Pristine(size int) []byte {
+	if size < 1<<20 {
+		img := make([]byte, size)
+		for i := range img {
+			img[i] = rig.Mix(0xC10, uint32(i))
+		}
+		return img
+	}
+	c10ImgMu.Lock()
+	defer c10ImgMu.Unlock()
+	img, ok := c10Images[size]
+	if !ok {
+		img = make([]byte, size)
+		for i := range img {
+			img[i] = rig.Mix(0xC10, uint32(i))
+		}
+		if len(c10Images) > 8 {
+			c10Images = map[int][]byte{}
+		}
+		c10Images[size] = img
+	}
+	return img
+}
+
 // c10Run checks the case against the reference model whose window ends `short` bytes before
 // the end of the bank (0 = the property; 1 = the known-finding variant).
 func c10Run(c c10Case, short int) error {
 	size := c.Banks*0x8000 + c.Tail
-	img := make([]byte, size)
-	for i := range img {
-		img[i] = rig.Mix(0xC10, uint32(i))
+	img := c10Pristine(size)
+	if size >= 1<<20 {
+		img = append([]byte(nil), img...)
 	}
 	model := append([]byte(nil), img...)
 	rom, err := snes.NewROM("c10", img)
@@ -64,7 +96,7 @@ func c10Run(c c10Case, short int) error {
 			} else {
 				n, e = rd.Read(buf)
 			}
-			if e != io.ErrUnexpectedEOF || n != 0 {
+			if !errors.Is(e, io.ErrUnexpectedEOF) || n != 0 {
 				return fmt.Errorf("op %d %s(%d bytes) at $%06X (offset below $8000) returned (%d, %v), want (0, unexpected EOF)", i, op.Kind, op.N, addr, n, e)
 			}
 			if err := cmp(fmt.Sprintf("after op %d", i)); err != nil {
@@ -96,13 +128,33 @@ func c10Run(c c10Case, short int) error {
 			copy(bigger, rom.Contents)
 			rom.Contents = bigger
 			rd, got, eof = nil, 0, false // a reader is a snapshot of the window it was created over; a new one (from position 0) is taken afterwards
-		case "write", "copy":
+		case "write", "copy", "alias":
 			if dead {
 				continue // position after a failed write is not specified: the writer is not used again
 			}
 			data := make([]byte, op.N)
 			for j := range data {
 				data[j] = rig.Mix(op.Seed, uint32(j))
+			}
+			src := data
+			if op.Kind == "alias" && op.N > 0 {
+				// the caller moves a block inside the image: the slice handed to Write overlaps the destination
+				// (below it for an even seed, above it otherwise); what must be stored is the slice's content at call time
+				d := int(op.Seed>>1)%op.N + 1
+				s0 := start + o - d
+				if op.Seed&1 == 1 {
+					s0 = start + o + d
+				}
+				if s0 < 0 {
+					s0 = 0
+				}
+				if s0+op.N > len(rom.Contents) {
+					s0 = len(rom.Contents) - op.N
+				}
+				if s0 >= 0 {
+					src = rom.Contents[s0 : s0+op.N]
+					copy(data, src)
+				}
 			}
 			var n int
 			var e error
@@ -111,7 +163,7 @@ func c10Run(c c10Case, short int) error {
 				n64, e = io.Copy(w, plainReader{bytes.NewReader(data)})
 				n = int(n64)
 			} else {
-				n, e = w.Write(data)
+				n, e = w.Write(src)
 			}
 			if o+op.N <= L {
 				if n != op.N || e != nil {
@@ -288,10 +340,18 @@ func c10Gen(t *rapid.T) c10Case {
 	if rapid.IntRange(0, 2).Draw(t, "multi") == 0 {
 		c.Banks = rapid.IntRange(1, 8).Draw(t, "banks")
 	}
+	big := rapid.IntRange(0, 399).Draw(t, "big") == 171
+	if big {
+		// images beyond 4 MiB: banks $80 and up lie inside the image
+		c.Banks = rapid.SampledFrom([]int{129, 130, 192, 255, 256}).Draw(t, "big-banks")
+	}
 	if rapid.IntRange(0, 3).Draw(t, "has-tail") == 0 {
 		c.Tail = rapid.IntRange(1, 0x7FFF).Draw(t, "tail")
 	}
 	c.Bank = uint32(rapid.IntRange(0, c.Banks-1).Draw(t, "bank"))
+	if big && rapid.IntRange(0, 3).Draw(t, "high-bank") != 0 {
+		c.Bank = uint32(rapid.IntRange(0x80, c.Banks-1).Draw(t, "bank-high"))
+	}
 	switch rapid.IntRange(0, 4).Draw(t, "off-kind") {
 	case 0:
 		c.Off = rapid.SampledFrom([]uint32{0x8000, 0x8001, 0xFFF0, 0xFFF8, 0xFFFC, 0xFFFD, 0xFFFE, 0xFFFF}).Draw(t, "off")
@@ -335,8 +395,11 @@ func c10Gen(t *rapid.T) c10Case {
 				n = 0
 			}
 			kind := "write"
-			if n > 0 && n <= 32768 && rapid.IntRange(0, 3).Draw(t, "via-copy") == 0 {
+			switch v := rapid.IntRange(0, 7).Draw(t, "via"); {
+			case n > 0 && n <= 32768 && v <= 1:
 				kind = "copy"
+			case n > 1 && v == 2:
+				kind = "alias"
 			}
 			c.Ops = append(c.Ops, c10Op{Kind: kind, N: n, Seed: rapid.Uint32().Draw(t, "data")})
 			if o+n <= L {
@@ -369,7 +432,7 @@ func init() {
 }
 
 func TestC10(t *testing.T) {
-	rig.Main(t, "C10", "rapid histories over ROM.BusWriter/BusReader: image of 1-8 banks (+tail), bus address with edge-biased offset, up to 8 ops "+
+	rig.Main(t, "C10", "rapid histories over ROM.BusWriter/BusReader: image of 1-8 banks (+tail; 129-256 banks in 0.1% of the cases, then mostly addressed at banks >= $80), writes from fresh buffers, through io.Copy and from overlapping slices of the image itself, bus address with edge-biased offset, up to 8 ops "+
 		"(writes whose lengths are solved to end 2/1 before, at and 1-3 beyond the window end, writer re-opens, reads with drawn buffer sizes) "+
 		"against a reference window model; the whole image is compared with the model after every call.  Non-trivial = offset >= $8000 and at least one "+
 		"write, or any op at an offset below $8000; distinct = hash(case).",
@@ -384,7 +447,10 @@ func TestC10(t *testing.T) {
 					L = 0x10000 - int(c.Off)
 				}
 				for _, op := range c.Ops {
-					if op.Kind == "write" || op.Kind == "copy" {
+					if op.Kind == "alias" {
+						ev.Class("written-slice-overlaps-its-destination-in-the-image")
+					}
+					if op.Kind == "write" || op.Kind == "copy" || op.Kind == "alias" {
 						nw++
 						if o+op.N > L {
 							over = true
@@ -413,6 +479,9 @@ func TestC10(t *testing.T) {
 				}
 				if c.Banks > 1 {
 					ev.Class("multi-bank")
+				}
+				if c.Bank >= 0x80 {
+					ev.Class("bank>=$80-of-an-image-beyond-4MiB")
 				}
 			})
 			ev.Assumption("after a write that reported an error and n stored bytes the writer continues at position+n (successive stored writes stay contiguous)")
